@@ -820,12 +820,37 @@ func checkIndexStable(p *Program, r *Report, a *mergedAnchors) {
 				}
 				if ia, ok := st.Addr.(*ssa.IndexAddr); ok {
 					if ld, ok := ia.X.(*ssa.UnOp); ok {
-						if _, ok := isSlotField(ld.X); ok {
+						if fa, ok := isSlotField(ld.X); ok {
 							n++
-							if c, isC := st.Val.(*ssa.Const); !isC || c.Value != nil {
+							// slots of an iterator that this function is still constructing
+							// (a fresh object, before any of its methods is called) may be filled
+							fresh := false
+							if al, isAlloc := fa.X.(*ssa.Alloc); isAlloc {
+								fresh = true
+								for _, ref := range *al.Referrers() {
+									ci, isCall := ref.(ssa.CallInstruction)
+									if !isCall {
+										continue
+									}
+									if ci.Block() == st.Block() {
+										// a call in the same block: before the store?
+										for _, i2 := range st.Block().Instrs {
+											if i2 == ssa.Instruction(st) {
+												break
+											}
+											if i2 == ref {
+												fresh = false
+											}
+										}
+									} else if ci.Block().Dominates(st.Block()) {
+										fresh = false
+									}
+								}
+							}
+							if c, isC := st.Val.(*ssa.Const); (!isC || c.Value != nil) && !fresh {
 								r.violate("INDEX-STABLE", key, p.pos(st.Pos()), "a sub-iterator slot is overwritten with a non-nil value: iterators change slots, so the heap's table-index tie-break no longer means 'newest table'", nil)
 							} else {
-								r.ok("INDEX-STABLE", key, "slots are only ever set to nil")
+								r.ok("INDEX-STABLE", key, "slots are only ever set to nil (or filled while the iterator is under construction)")
 							}
 						}
 					}
